@@ -178,6 +178,10 @@ def run_case(case, ctx):
                 out.append(viol('C03 unknown name not flagged as unknown in the %s view' % vname, 'cat=%s name=%s notes=%r' % (cat, name, notes)))
             if not [lv for lv, _ in notes if lv in ('fail', 'warn')]:
                 out.append(viol('C03 unknown name presented without a warning/failure in the %s view' % vname, 'cat=%s name=%s notes=%r' % (cat, name, notes)))
+        # "they do not change ... with the output format": the severity an unknown name is given is the same in every view
+        sev = {vname: tuple(sorted({lv for lv, _ in notes if lv in ('fail', 'warn')})) for vname, notes in views.items()}
+        if len(set(sev.values())) > 1:
+            out.append(viol('C03 an unknown name is rated at different levels in different views', 'cat=%s name=%s levels by view: %r' % (cat, name, sev)))
     else:
         ref = reference(cat, dbname)
         for vname, notes in views.items():
